@@ -1366,6 +1366,7 @@ func gen1(r *Rand, prev *Input) Input {
 			wideSlot = 1
 		}
 		if wideSlot == 1 {
+			in.SPE = 32 // epoch about 2^27: source+target < 2^29, where 1/(1+distance) still separates float64 scores
 			in.Slot = 1<<32 + uint64(r.Intn(4))
 			if r.Chance(1, 3) {
 				in.Slot = 1<<32 + uint64(r.Intn(int(2*in.SPE)))
